@@ -454,8 +454,19 @@ func runOps(w *world, ops []Op, tr *trace, o *hx.Out, at func(i int, point strin
 			if err != nil {
 				return err
 			}
+			if at != nil {
+				// a write that introduces a field saves fields.idx through a temp file before the
+				// points reach the WAL: crash points with the temp file created / fully written
+				tsdb.SetVerifPoint(func(name string, args ...interface{}) {
+					if name == "fields.tmp.created" || name == "fields.tmp.written" {
+						at(i, name, nil, nil, 0, 0, "")
+					}
+				})
+			}
+			err = guard(func() error { return w.st.WriteToShard(1, pts) })
+			tsdb.SetVerifPoint(nil)
 			tr.addKeys(op.Pts)
-			if err := guard(func() error { return w.st.WriteToShard(1, pts) }); err != nil {
+			if err != nil {
 				return fmt.Errorf("write: %v", err)
 			}
 			count(o, "op:write")
@@ -1158,6 +1169,10 @@ func (g *gen) variants(ops []Op, budget int, allCuts bool) []variant {
 	for i, op := range ops {
 		switch op.K {
 		case "w", "del":
+			if op.K == "w" && (i == 0 || g.r.Chance(35)) {
+				// only fires when the write introduces a new field (fields.idx is re-saved)
+				add(Crash{At: i, Point: []string{"fields.tmp.created", "fields.tmp.written"}[g.r.Intn(2)]})
+			}
 			cs := g.cuts()
 			if !allCuts {
 				// a sample of the cut offsets
